@@ -53,7 +53,7 @@ def evaluate(job):
     wt = f"/tmp/ev-{name}"
     tgt = f"/tmp/evtarget-{slot}"
     vroot = f"/tmp/evverif-{slot}"
-    res = {"id": name, "breaks": ident, "ran": []}
+    res = {"id": name, "breaks": ident, "ran": [], "verif_snapshot": SNAP}
     sh(f"git -C /repo worktree remove --force {wt}")
     rc, out = sh(f"git -C /repo worktree add -q --detach {wt} HEAD")
     if rc != 0:
